@@ -35,6 +35,7 @@ package io
 //@       forall(j, off(dec.buf) + dec.head, off(dec.buf) + dec.tail, mem(dec.buf, j) == ghost.rstream[ival(dec.reader)][ghost.rpos[ival(dec.reader)] - dec.tail - off(dec.buf) + j])
 //@   ensures [reader_mode_buffer_has_room] dec.reader != nil ==> dec.buf == nil || len(dec.buf) > 0
 //@   ensures [error_is_sticky] old(dec.Error) != nil ==> dec.Error != nil
+//@   ensures [buffer_is_kept_or_fresh] arr(dec.buf) == old(arr(dec.buf)) || isnew(arr(dec.buf))
 //@   ensures [memory_input_is_never_written] dec.reader == nil ==> same(dec.buf, old(dec.buf)) && dec.tail == old(dec.tail)
 //@   ensures [memory_input_bytes_are_never_written] dec.reader == nil ==> forall(j, mem(dec.buf, j) == old(mem(dec.buf, j)))
 
@@ -97,6 +98,7 @@ package io
 //@   loop 1 invariant n > 0 && len(data) + n == n0 && safe && 0 <= dec.tail && dec.tail <= len(dec.buf) && isnew(arr(data)) && arr(data) != arr(dec.buf)
 //@   loop 1 invariant dec.reader != nil ==> ghost.rpos[ival(dec.reader)] == lp0 + len(data) && len(dec.buf) > 0
 //@   loop 1 invariant dec.reader == nil ==> same(dec.buf, old(dec.buf)) && dec.tail == old(dec.tail)
+//@   loop 1 invariant dec.reader == nil ==> forall(j, mem(dec.buf, j) == old(mem(dec.buf, j)))
 //@   loop 1 invariant old(dec.Error) != nil ==> dec.Error != nil
 //@   loop 1 invariant arr(dec.buf) == old(arr(dec.buf)) || isnew(arr(dec.buf))
 //@   loop 1 invariant dec.reader != nil ==> forall(j, off(data), off(data) + len(data), mem(data, j) == ghost.rstream[ival(dec.reader)][lp0 - off(data) + j])
@@ -151,6 +153,7 @@ package io
 //@   loop 1 invariant [data_is_the_stream] dec.reader != nil ==> forall(j, off(data), off(data) + len(data), mem(data, j) == ghost.rstream[ival(dec.reader)][lp0 - off(data) + j])
 //@   loop 1 invariant [data_has_no_delimiter] forall(j, off(data), off(data) + len(data), mem(data, j) != delim)
 //@   loop 1 invariant [memory] dec.reader == nil ==> same(dec.buf, old(dec.buf)) && dec.tail == old(dec.tail)
+//@   loop 1 invariant [memory_bytes] dec.reader == nil ==> forall(j, mem(dec.buf, j) == old(mem(dec.buf, j)))
 //@   loop 1 invariant [sticky] old(dec.Error) != nil ==> dec.Error != nil
 //@   loop 1 invariant [bufid] arr(dec.buf) == old(arr(dec.buf)) || isnew(arr(dec.buf))
 //@   ensures [stream_position] dec.reader != nil ==> ghost.rpos[ival(dec.reader)] - dec.tail + dec.head == lp0 + len(data) + 1 ||
@@ -199,6 +202,7 @@ package io
 //@   loop 1 invariant [coupling] dec.reader != nil ==> forall(j, off(dec.buf) + dec.head, off(dec.buf) + dec.tail, mem(dec.buf, j) == ghost.rstream[ival(dec.reader)][ghost.rpos[ival(dec.reader)] - dec.tail - off(dec.buf) + j])
 //@   loop 1 invariant [data_is_the_stream] dec.reader != nil ==> forall(j, off(data), off(data) + len(data), mem(data, j) == ghost.rstream[ival(dec.reader)][lp0 - off(data) + j])
 //@   loop 1 invariant [memory] dec.reader == nil ==> same(dec.buf, old(dec.buf)) && dec.tail == old(dec.tail)
+//@   loop 1 invariant [memory_bytes] dec.reader == nil ==> forall(j, mem(dec.buf, j) == old(mem(dec.buf, j)))
 //@   loop 1 invariant [sticky] old(dec.Error) != nil ==> dec.Error != nil
 //@   loop 1 invariant [bufid] arr(dec.buf) == old(arr(dec.buf)) || isnew(arr(dec.buf))
 //@   ensures [ends_at_the_end_of_input] dec.Error != nil
@@ -270,6 +274,7 @@ package io
 //@   loop 1 invariant [only_digits_passed] dec.reader != nil ==> ghost.rpos[ival(dec.reader)] - dec.tail + dec.head >= lp0 &&
 //@       forall(q, lp0, ghost.rpos[ival(dec.reader)] - dec.tail + dec.head, isdigit(ghost.rstream[ival(dec.reader)][q]))
 //@   loop 1 invariant [memory] dec.reader == nil ==> same(dec.buf, old(dec.buf)) && dec.tail == old(dec.tail) && dec.head == old(dec.head)
+//@   loop 1 invariant [memory_bytes] dec.reader == nil ==> forall(j, mem(dec.buf, j) == old(mem(dec.buf, j)))
 //@   loop 1 invariant [sticky] old(dec.Error) != nil ==> dec.Error != nil
 //@   loop 1 invariant [bufid] arr(dec.buf) == old(arr(dec.buf)) || isnew(arr(dec.buf))
 //@   loop 2 invariant [scan] dec.head <= p && p <= dec.tail && forall(j, off(dec.buf) + dec.head, off(dec.buf) + p, isdigit(mem(dec.buf, j)))
